@@ -1,6 +1,7 @@
 package main
 
 import (
+	"bytes"
 	"fmt"
 	"math"
 	"runtime"
@@ -154,9 +155,43 @@ func bloomCase(c *Ctx, cfg bloomCfg, caseNo int) {
 	var hist []string
 	nops := 10 + c.rng.Intn(30)
 	lookedAbsent := false
+	// Redis: the operations are routed through the creating handle and through handles attached
+	// from the metadata key - one of them while the filter is still empty, others at random
+	// points (what a handle remembers locally must not matter: C09); `f` stays the handle the
+	// state is observed through.
+	handles := []*gostatix.BloomFilter{f}
+	mayAttach := cfg.redis && f.GetMetadataKey() != ""
+	attach := func() {
+		if g, err := gostatix.NewRedisBloomFilterFromKey(f.GetMetadataKey()); err == nil && g != nil && g.GetCap() == f.GetCap() {
+			handles = append(handles, g)
+			c.branch("attached-handle")
+		}
+	}
+	if mayAttach && caseNo%3 != 0 {
+		attach()
+	}
 	for opn := 0; opn < nops; opn++ {
 		j := c.rng.Intn(len(pool))
 		e := pool[j]
+		if mayAttach && len(handles) < 4 && c.rng.Intn(10) == 0 {
+			attach()
+		}
+		if c.rng.Intn(30) == 0 && len(inserted) > 0 {
+			// continue the history on a copy loaded into a handle that was built with OTHER
+			// dimensions (a power of two, or none) and has been used: Import, or for the in-memory
+			// variant WriteTo/ReadFrom.  Everything inserted so far must still be found.
+			if g := bloomReload(c, f, cfg); g != nil {
+				f = g
+				handles = []*gostatix.BloomFilter{f}
+				mayAttach = false // finding D25: Import does not rewrite the metadata hash
+				hist = append(hist, "reload")
+				if uint64(f.GetCap()) != size || uint64(f.GetNumHashes()) != k {
+					c.fail([]string{"C01", "C10", "C11"}, "bloom-reload-parameters", fmt.Sprintf("reloaded filter has size %d / %d hashes, the original %d / %d", f.GetCap(), f.GetNumHashes(), size, k), cfg.String())
+					return
+				}
+			}
+		}
+		via := handles[c.rng.Intn(len(handles))]
 		pre, err := bloomAbs(f, cfg.redis)
 		if err != nil {
 			c.fail([]string{"C01"}, "bloom-export", fmt.Sprintf("export failed: %v", err), cfg.String())
@@ -167,10 +202,10 @@ func bloomCase(c *Ctx, cfg bloomCfg, caseNo int) {
 			var res callResult
 			if r%2 == 0 {
 				c.op("Insert")
-				res = safely(func() { f.Insert(e) })
+				res = safely(func() { via.Insert(e) })
 			} else {
 				c.op("InsertString")
-				res = safely(func() { f.InsertString(string(e)) })
+				res = safely(func() { via.InsertString(string(e)) })
 			}
 			if res.panicked {
 				c.fail([]string{"C01"}, "bloom-panic", "Insert panicked: "+res.panicVal, cfg.String())
@@ -183,7 +218,7 @@ func bloomCase(c *Ctx, cfg bloomCfg, caseNo int) {
 		default:
 			var got, got2 bool
 			c.op("Lookup")
-			res := safely(func() { got = f.Lookup(e); got2 = f.LookupString(string(e)) })
+			res := safely(func() { got = via.Lookup(e); got2 = via.LookupString(string(e)) })
 			if res.panicked {
 				c.fail([]string{"C01"}, "bloom-panic", "Lookup panicked: "+res.panicVal, cfg.String())
 				return
@@ -210,11 +245,12 @@ func bloomCase(c *Ctx, cfg bloomCfg, caseNo int) {
 		}
 		// oracle: every inserted element is present after every step
 		for jj := range inserted {
-			ok1 := f.Lookup(pool[jj])
-			ok2 := f.LookupString(string(pool[jj]))
+			q := handles[(opn+jj)%len(handles)]
+			ok1 := q.Lookup(pool[jj])
+			ok2 := q.LookupString(string(pool[jj]))
 			if !ok1 || !ok2 {
-				c.fail([]string{"C01", "C08"}, "bloom-false-negative",
-					fmt.Sprintf("element %x inserted earlier is reported absent after op %d (Lookup=%v LookupString=%v)", pool[jj], opn, ok1, ok2),
+				c.fail([]string{"C01", "C08", "C09"}, "bloom-false-negative",
+					fmt.Sprintf("element %x inserted earlier is reported absent after op %d (Lookup=%v LookupString=%v, %d handles)", pool[jj], opn, ok1, ok2, len(handles)),
 					map[string]interface{}{"config": cfg.String(), "pool": poolHex(pool), "history": hist, "element": jj})
 				return
 			}
@@ -224,6 +260,51 @@ func bloomCase(c *Ctx, cfg bloomCfg, caseNo int) {
 		c.nontrivial(fmt.Sprintf("%s|%v", cfg, hist))
 	}
 	c.sample(map[string]interface{}{"config": cfg.String(), "size": size, "numHashes": k, "history": hist})
+}
+
+// bloomReload: the current state loaded into another, used handle of other dimensions
+func bloomReload(c *Ctx, f *gostatix.BloomFilter, cfg bloomCfg) *gostatix.BloomFilter {
+	var g *gostatix.BloomFilter
+	var err error
+	switch c.rng.Intn(3) {
+	case 0: // power-of-two size
+		if cfg.redis {
+			g, err = gostatix.NewRedisBloomFilterFromBitSet(make([]uint64, 1<<uint(c.rng.Intn(5))), 3)
+		} else {
+			g = gostatix.NewMemBloomFilterFromBitSet(make([]uint64, 1<<uint(c.rng.Intn(5))), 3)
+		}
+	case 1:
+		g, err = bloomCfg{kind: "params", redis: cfg.redis, numItems: 100, errorRate: 0.01}.build()
+	default:
+		g, err = bloomCfg{kind: "params", redis: cfg.redis, numItems: 3, errorRate: 0.3}.build()
+	}
+	if err != nil || g == nil {
+		return nil
+	}
+	g.Insert([]byte("previous tenant"))
+	g.Lookup([]byte("previous tenant"))
+	var lerr error
+	how := "Import"
+	res := safely(func() {
+		if !cfg.redis && c.rng.Intn(2) == 0 {
+			how = "WriteTo/ReadFrom"
+			var buf bytes.Buffer
+			if _, lerr = f.WriteTo(&buf); lerr == nil {
+				_, lerr = g.ReadFrom(&buf)
+			}
+			return
+		}
+		var doc []byte
+		if doc, lerr = f.Export(); lerr == nil {
+			lerr = g.Import(doc)
+		}
+	})
+	c.branch("reload-" + how)
+	if res.panicked || lerr != nil {
+		c.fail([]string{"C10", "C11"}, "bloom-reload-fails", fmt.Sprintf("%s of the filter's own image into a used handle failed: %v %v", how, res.panicVal, lerr), cfg.String())
+		return nil
+	}
+	return g
 }
 
 func poolHex(pool [][]byte) []string {
